@@ -124,6 +124,16 @@ def check(pid, tier, seed):
             if v["status"] != "ok":
                 undecided.append("vacuity pass %s: %s" % (v["unit"], v["reason"]))
 
+    # one report per obligation (a function can fail several sub-goals)
+    merged = {}
+    for f in failures:
+        if f["obligation"] in merged:
+            m = merged[f["obligation"]]
+            m["message"] += " | " + f["message"] + (" " + f["repo_loc"] if f.get("repo_loc") else "")
+            m["rendered"] += "\n" + f.get("rendered", "")
+        else:
+            merged[f["obligation"]] = dict(f)
+    failures = list(merged.values())
     violations = []
     known_hits = []
     for f in failures:
